@@ -23,6 +23,8 @@ pub enum Op {
     NoDirty,
     Clean,
     NoBumpContext,
+    /// --tag-version TEXT on a source that already carries a version: every version variable is replaced by the parsed tag
+    TagVersion(&'static str),
 }
 
 #[derive(Clone, Debug, PartialEq)]
@@ -211,6 +213,13 @@ fn apply_inner(start: &State, ops: &[Op], now: u64, un: &mut Unspecified) -> Res
     if clean && (distance.is_some() || dirty || no_dirty) { return Err("--clean conflicts".into()); }
     if nbc && dirty { return Err("--no-bump-context with --dirty".into()); }
     if has(&|o| matches!(o, Op::OverrideLabel(_))) && has(&|o| matches!(o, Op::BumpLabel(_))) { return Err("label override with label bump".into()); }
+    // a tag-version override replaces the whole version (epoch, core, pre-release, post, dev), absent parts become absent
+    let tags: Vec<&str> = ops.iter().filter_map(|o| if let Op::TagVersion(t) = o { Some(*t) } else { None }).collect();
+    if tags.len() > 1 { return Err("flag given twice".into()); }
+    if let Some(t) = tags.first() {
+        let (core, pre): ([u64; 3], Option<(&'static str, Option<u64>)>) = match *t { "9.8.7" => ([9, 8, 7], None), "4.5.6-rc.2" => ([4, 5, 6], Some(("rc", Some(2)))), other => return Err(format!("model does not know tag {other}")) };
+        st.vars.epoch = None; st.vars.major = Some(core[0]); st.vars.minor = Some(core[1]); st.vars.patch = Some(core[2]); st.vars.pre = pre; st.vars.post = None; st.vars.dev = None;
+    }
     // context overrides, before anything else
     if let Some(d) = distance { st.vars.distance = Some(d as u64); }
     if dirty { st.vars.dirty = Some(true); }
@@ -267,5 +276,6 @@ pub fn argv(op: &Op) -> Vec<String> {
         Op::NoDirty => vec!["--no-dirty".into()],
         Op::Clean => vec!["--clean".into()],
         Op::NoBumpContext => vec!["--no-bump-context".into()],
+        Op::TagVersion(t) => vec!["--tag-version".into(), t.to_string()],
     }
 }
